@@ -28,16 +28,15 @@ repaired (6caf0d2, 59d7821) and are no longer classes. -/
 /-- every pattern is in the vocabulary (constraints unrestricted) -/
 def patternsOK (R : List Route) : Bool := R.all fun r => parsePattern r.text = some r.pat
 
-/-- the class token for a request on which the two engines differ. `overwrite` is the same-shape part of
-K01c (two patterns that differ in parameter names only: one tree leaf, two compiled templates); the class
-`names` (K01a) went with its repair. The compiled tables only serve the
-request's own method; the 404/405 tail is shared code. -/
+/-- the class token for a request on which the two engines differ. The compiled tables only serve the
+request's own method; the 404/405 tail is shared code. `overwrite` is K01c seen through the comparison: another
+route has the shape of the route the reference selects — under another pattern text (two compiled templates,
+one tree leaf) or registered later (the tree leaf was replaced). The tree-side classes `names` (K01a), `shadow`
+(K01b) and `cfall` (K01f) went with their repairs: the tree engine now is the reference outside `overwrite`. -/
 def classify11 (sat : Nat → Bytes → Bool) (R : List Route) (req : Req) (p : RPath) : String :=
   let m := req.method
   if !normal R then "undeclared"
-  else if dSameShape1 R m p then "overwrite"
-  else if dShadow1 R m p then "shadow"
-  else if dCfall1 sat R m p then "cfall"
+  else if dSameShape1 sat R m p || dReplaced1 sat R m p then "overwrite"
   else if dOrder1 sat R m p then "order"
   else "-"
 
